@@ -3,13 +3,33 @@
 Engine E5 (plain exhaustive enumeration), purely differential oracle.
 
 Sigma   annotations = categories x array types {np.ndarray, Duck20, Any, Union,
-        nested one level, nested two levels} x dim strings; routes = pickle
-        protocols 0..5, cloudpickle, copy.copy, copy.deepcopy, each in the same
-        process and loaded / performed in a FRESH interpreter.
-Oracle  the *acceptance vector* of an annotation = outcome (T / F / <ExcType>)
-        of isinstance over 2 array classes x 9 dtypes x 10 shapes under three
-        contexts (empty; `a` pre-bound to 3; `a` pre-bound to 5), each probe in
-        its own `with jaxtyped("context")` block.
+        nested one level, nested two levels} x dim strings (incl. the tree-path
+        axes `?a` and `*?v 3`, on every nesting level); routes = pickle
+        protocols 0..5, cloudpickle (annotation class shipped BY VALUE, which is
+        what cloudpickle does on its own, and BY REFERENCE = the class made
+        reachable as <module>.<qualname> for the duration of the dump, so that
+        cloudpickle's pickler goes through the copyreg reducer), copy.copy,
+        copy.deepcopy, each in the same process and loaded / performed in a
+        FRESH interpreter.
+        Second family (`unordered categories`): user categories importable by
+        name whose `dtypes` come out of a set (`SetMix`, `SetRe`: the ORDER of
+        their dtypes depends on PYTHONHASHSEED), flat and narrowed / narrowing
+        by nesting (one and two levels); dumped under PYTHONHASHSEED=1, loaded
+        in fresh interpreters under PYTHONHASHSEED=1,2,3,4 (the check verifies
+        that these seeds really produce different orders).  Every child of the
+        first family runs under a pinned seed too (dump 1, load 2).
+Oracle  the *acceptance vector* of an annotation =
+        (plain part) outcome (T / F / <ExcType>) of isinstance over 2 array
+        classes x 9 dtypes x 10 shapes under three contexts (empty; `a`
+        pre-bound to 3; `a` pre-bound to 5), each probe in its own
+        `with jaxtyped("context")` block;
+        (tree part) the annotation as the LEAF TYPE of a structured
+        `PyTree[ann, "T"]`: two-leaf trees {"x": v1, "y": v2} over 7 shape pairs
+        (equal sizes, unequal sizes, unequal ranks), one binding context per
+        tree, for each array class the annotation does not reject outright, with
+        the first dtype of that class it does not reject (read off the plain
+        part just measured) - the only place where `?` / `*?` axes answer
+        instead of raising AnnotationError.
           (1) vector(reconstructed) == vector(original) computed BEFORE
               serialising                                        [side = copy]
           (2) vector(original) recomputed AFTER dumps / after loads is
@@ -37,9 +57,11 @@ and every route is re-run alone on a fresh original in a fresh interpreter
 reported, under route `pickle-or-copy`).
 
 Keys    C20:<route>:<same|xproc>:<class>:<copy|original|bystander>
-        route  pickle (protocol in the text and the replay) | cloudpickle | copy |
-               deepcopy | pickle-or-copy (unattributed, failure path only)
-        class  '+'-join of {nested-narrowing | shaped, anon-axis, ellipsis}, or
+        route  pickle (protocol in the text and the replay) | cloudpickle |
+               cloudpickle-ref | copy | deepcopy | pickle-or-copy (unattributed,
+               failure path only)
+        class  '+'-join of {nested-narrowing | shaped, anon-axis, ellipsis,
+               treepath, unordered-category}, or
                plain-{ndarray,duck,anytype,union,nested}; computed from the spec
                alone (route-independent).
 """
@@ -62,16 +84,25 @@ CATS = [
     "Shaped", "Num", "Real", "Inexact", "Integer", "Float", "Complex", "Int", "UInt",
     "Bool", "Float32", "Int32", "UInt8", "Key", "U8or16", "FloatRe",
 ]  # fmt: skip
-USER_CATS = ("U8or16", "FloatRe")
-DIMS = ["", "a b", "_ a", "... a", "*v 3", "#a", "a+1", "x=3"]
+HASH_CATS = ["SetMix", "SetRe"]  # user categories whose dtypes ORDER depends on PYTHONHASHSEED
+USER_CATS = ("U8or16", "FloatRe", "SetMix", "SetRe")
+DIMS_NO_TP = ["", "a b", "_ a", "... a", "*v 3", "#a", "a+1", "x=3"]
+DIMS = DIMS_NO_TP + ["?a", "*?v 3"]  # tree-path axes: one size per LEAF of the enclosing structured PyTree
 FLAT_TYPES = ["nd", "duck", "any", "union"]
-INNER_DIMS = ["a", "_", "...", "x"]  # "x": the same bare name as the documentation name in the outer "x=3"
+INNER_DIMS_NO_TP = ["a", "_", "...", "x"]  # "x": the same bare name as the documentation name in the outer "x=3"
+INNER_DIMS = INNER_DIMS_NO_TP + ["?a"]
 # categories used on inner levels in the quick tier (every narrowing direction:
 # any-dtype, superset, subset, disjoint, precision, regex)
 INNER_CATS_QUICK = ["Shaped", "Num", "Float", "Integer", "Int32", "FloatRe"]
 CHAIN_CATS_QUICK = ["Shaped", "Num", "Float", "Int32"]
 CHAIN_CATS_THOROUGH = ["Shaped", "Num", "Float", "Integer", "Float32", "Int32", "FloatRe"]
 OUTER_DIMS_CHAIN_QUICK = ["", "_ a", "... a", "a+1"]
+# quick tier, tree-path axes in two-level chains: (outermost dims, innermost dims)
+CHAIN_TP_QUICK = [("", "?a"), ("*?v 3", "a"), ("?a", "_")]
+
+DUMP_SEED = 1  # PYTHONHASHSEED of every interpreter that builds + dumps
+LOAD_SEEDS = [2]  # ... of the interpreters that load (first family)
+HASH_LOAD_SEEDS = [1, 2, 3, 4]  # ... that load annotations over the unordered categories
 
 PICKLE_PROTOCOLS = [0, 1, 2, 3, 4, 5]
 BLAME_CAP_PER_BATCH = 3  # failure path only: per-route re-runs of annotations whose original changed
@@ -80,6 +111,10 @@ ND_DTYPES = ["bool_", "uint8", "uint16", "int8", "int32", "float16", "float32", 
 DUCK_DTYPES = ["bool", "uint8", "uint16", "int8", "int32", "float16", "float32", "complex64", "prng_key"]
 SHAPES = [(), (1,), (3,), (4,), (2, 3), (3, 3), (3, 4), (2, 3, 3), (3, 3, 3), (3, 3, 3, 3)]
 CONTEXTS = [None, 3, 5]  # empty / a=3 (most shapes match) / a=5 (no shape matches)
+N_PLAIN = len(CONTEXTS) * (len(ND_DTYPES) + len(DUCK_DTYPES)) * len(SHAPES)
+# leaf shapes of the two-leaf trees {"x": ., "y": .} checked against PyTree[ann, "T"]
+TREE_PAIRS = [((), ()), ((3,), (3,)), ((3,), (4,)), ((2, 3), (2, 3)), ((2, 3), (3, 3)), ((2, 3), (2, 4)), ((3,), (2, 3))]
+TREE_UNEQUAL = [k for k, (s1, s2) in enumerate(TREE_PAIRS) if s1 != s2]
 
 CANARY = [
     ("Float", "nd", "_ a"),
@@ -87,6 +122,7 @@ CANARY = [
     ("Shaped", ("Float", "nd", "a"), "b"),
     ("Int", "any", "*v 3"),
     ("FloatRe", "duck", "#a"),
+    ("Float", "nd", "_ ?a"),
 ]
 MINI_CANARY = ("Shaped", "duck", "_ ... a")
 
@@ -109,15 +145,60 @@ def enumerate_specs(tier: str) -> list:
             for ic in inner_cats:
                 for d in DIMS:
                     for idim in INNER_DIMS:
-                        out.append((c, (ic, base, idim), d))
+                        if thorough or ("?" not in d and "?" not in idim):
+                            out.append((c, (ic, base, idim), d))
+    if not thorough:
+        # quick: every (outer dims, inner dims) pair with a tree-path axis, over the chain categories
+        for c in CHAIN_CATS_QUICK:
+            for ic in CHAIN_CATS_QUICK:
+                for d in DIMS:
+                    for idim in INNER_DIMS:
+                        if "?" in d or "?" in idim:
+                            out.append((c, (ic, "nd", idim), d))
     chain = CHAIN_CATS_THOROUGH if thorough else CHAIN_CATS_QUICK
     mid_dims = ["", "b"] if thorough else ["b"]
-    outer_dims = DIMS if thorough else OUTER_DIMS_CHAIN_QUICK
+    if thorough:
+        dim_pairs = [(d1, d3) for d1 in DIMS for d3 in INNER_DIMS]
+    else:
+        dim_pairs = [(d1, d3) for d1 in OUTER_DIMS_CHAIN_QUICK for d3 in INNER_DIMS_NO_TP] + CHAIN_TP_QUICK
     for c1, c2, c3 in itertools.product(chain, repeat=3):
-        for d1 in outer_dims:
+        for d1, d3 in dim_pairs:
             for d2 in mid_dims:
-                for d3 in INNER_DIMS:
-                    out.append((c1, (c2, (c3, "nd", d3), d2), d1))
+                out.append((c1, (c2, (c3, "nd", d3), d2), d1))
+    return out
+
+
+HASH_PARTNERS_QUICK = ["Shaped", "Num", "Float", "Integer", "UInt8", "U8or16", "FloatRe"]
+HASH_CHAIN_QUICK = ["Shaped", "Float", "Integer"]
+HASH_CHAIN_THOROUGH = ["Shaped", "Num", "Float", "Integer", "UInt8", "FloatRe"]
+
+
+def enumerate_hash_specs(tier: str) -> list:
+    """Second family: annotations over the unordered user categories - flat,
+    narrowED by a nested inner category (strict subsets of the category), narrowING
+    an outer category, and in two-level chains."""
+    thorough = tier == "thorough"
+    out = []
+    for c in HASH_CATS:
+        for t in FLAT_TYPES if thorough else ["nd", "union"]:
+            for d in DIMS if thorough else ["", "_ a"]:
+                out.append((c, t, d))
+    partners = CATS if thorough else HASH_PARTNERS_QUICK
+    odims = ["", "b", "... b"] if thorough else ["b"]
+    idims = INNER_DIMS if thorough else ["a"]
+    for hc in HASH_CATS:
+        for oc in partners + HASH_CATS:
+            for d in odims:
+                for idim in idims:
+                    out.append((hc, (oc, "nd", idim), d))
+                    if oc not in HASH_CATS:
+                        out.append((oc, (hc, "nd", idim), d))
+    chain = HASH_CHAIN_THOROUGH if thorough else HASH_CHAIN_QUICK
+    for c1, c2, c3 in itertools.product(chain + HASH_CATS, repeat=3):
+        n_hash = sum(c in HASH_CATS for c in (c1, c2, c3))
+        if n_hash == 0 or (not thorough and n_hash != 1):
+            continue
+        out.append((c1, (c2, (c3, "nd", "a"), "b"), ""))
     return out
 
 
@@ -142,6 +223,10 @@ def depth(spec) -> int:
 
 def base_type(spec) -> str:
     return base_type(spec[1]) if isinstance(spec[1], (list, tuple)) else spec[1]
+
+
+def all_cats(spec) -> list:
+    return [spec[0]] + (all_cats(spec[1]) if isinstance(spec[1], (list, tuple)) else [])
 
 
 def all_tokens(spec) -> list:
@@ -174,6 +259,10 @@ def _rt():
     from jaxtyping import jaxtyped
 
     try:
+        from jaxtyping import PyTree
+    except ImportError as e:  # pragma: no cover
+        raise HarnessError(f"jaxtyping.PyTree is not available (jax missing?): {e}")
+    try:
         from vf.fixtures import c20_types as fx
     except ImportError as e:  # pragma: no cover
         raise HarnessError(f"fixture module vf.fixtures.c20_types not importable: {e}")
@@ -188,11 +277,48 @@ def _rt():
         for sh in SHAPES:
             values.append(fx.Duck20(sh, dt))
             labels.append(f"Duck20 {dt} {sh}")
+    trees = {}
+    for dt in ND_DTYPES:
+        trees[("ndarray", dt)] = [{"x": np.zeros(s1, dtype=getattr(np, dt)), "y": np.zeros(s2, dtype=getattr(np, dt))} for s1, s2 in TREE_PAIRS]
+    for dt in DUCK_DTYPES:
+        trees[("Duck20", dt)] = [{"x": fx.Duck20(s1, dt), "y": fx.Duck20(s2, dt)} for s1, s2 in TREE_PAIRS]
     _RT.update(
-        np=np, typing=typing, jaxtyping=jaxtyping, jaxtyped=jaxtyped, fx=fx, values=values, labels=labels,
+        np=np, typing=typing, jaxtyping=jaxtyping, jaxtyped=jaxtyped, fx=fx, values=values, labels=labels, PyTree=PyTree, trees=trees,
         binder=jaxtyping.Shaped[fx.Duck20, "a"], bind={3: fx.Duck20((3,)), 5: fx.Duck20((5,))},
     )  # fmt: skip
     return _RT
+
+
+def tree_plan(plain: list) -> list:
+    """Which (array class, dtype) the two-leaf trees of an annotation are made of:
+    per array class the first dtype that the annotation does not reject outright
+    (some outcome other than F in the empty context of the PLAIN part, i.e. T or,
+    for tree-path axes, <AnnotationError>).  A pure function of the plain part, so
+    two annotations with equal plain parts are probed with the same trees."""
+    n = len(SHAPES)
+    out = []
+    for cls, dts, off in (("ndarray", ND_DTYPES, 0), ("Duck20", DUCK_DTYPES, len(ND_DTYPES) * n)):
+        for k, dt in enumerate(dts):
+            if any(x != "F" for x in plain[off + k * n : off + (k + 1) * n]):
+                out.append((cls, dt))
+                break
+    return out
+
+
+def tree_labels(plan) -> list:
+    return [f"tree {{x: {cls} {dt} {s1}, y: {cls} {dt} {s2}}} against PyTree[annotation, 'T'] ctx=empty" for cls, dt in plan for s1, s2 in TREE_PAIRS]
+
+
+def labels_for(ref: list) -> list:
+    """Probe labels of a complete vector (plain part + the tree part its plan implies)."""
+    out = probe_labels() + tree_labels(tree_plan(ref[:N_PLAIN]))
+    if len(out) != len(ref):
+        raise HarnessError(f"vector length {len(ref)} does not match its own tree plan ({len(out)})")
+    return out
+
+
+def tree_part(ref: list) -> list:
+    return ref[N_PLAIN:]
 
 
 def probe_labels() -> list:
@@ -254,9 +380,12 @@ def _outcome(val, mem) -> str:
 
 
 def vector(ann, values=None) -> list:
-    """Acceptance vector: for ctx in CONTEXTS, for value in VALUES."""
+    """Acceptance vector.  Plain part: for ctx in CONTEXTS, for value in VALUES.
+    Tree part (only for the standard value set): the annotation as the leaf type of
+    PyTree[ann, "T"] over the two-leaf trees of `tree_plan(plain part)`."""
     rt = _rt()
     jaxtyped, binder, bind = rt["jaxtyped"], rt["binder"], rt["bind"]
+    with_trees = values is None
     values = rt["values"] if values is None else values
     try:
         mem = members(ann)
@@ -269,6 +398,17 @@ def vector(ann, values=None) -> list:
                 if ctx is not None and not isinstance(bind[ctx], binder):
                     raise HarnessError("the pristine binder annotation Shaped[Duck20,'a'] rejected its value")
                 out.append(_outcome(v, mem))
+    if with_trees:
+        plan = tree_plan(out)
+        if plan:
+            try:
+                tree_t = (rt["PyTree"][ann, "T"],)
+            except Exception as e:  # noqa: BLE001
+                return out + [f"<PyTree:{type(e).__name__}>"] * (len(plan) * len(TREE_PAIRS))
+            for key in plan:
+                for tree in rt["trees"][key]:
+                    with jaxtyped("context"):
+                        out.append(_outcome(tree, tree_t))
     return out
 
 
@@ -331,6 +471,39 @@ def _safe(fn, *a, **k):
         return True, fn(*a, **k)
     except Exception as e:  # noqa: BLE001
         return False, f"<{type(e).__name__}: {str(e)[:160]}>"
+
+
+def _cp_dumps_by_ref(ann):
+    """cloudpickle.dumps with every member class of the annotation reachable as
+    <its __module__>.<its __qualname__> for the duration of the dump: cloudpickle
+    then treats the class as importable, does NOT ship it by value, and its pickler
+    falls through to the copyreg reducer.  -> bytes, or None when cloudpickle still
+    went by value (a name containing '.', e.g. a '...' axis, cannot be looked up)."""
+    import cloudpickle
+
+    placed = []
+    try:
+        for m in members(ann):
+            mod = sys.modules.get(getattr(m, "__module__", None) or "")
+            name = getattr(m, "__qualname__", None)
+            if mod is None or not isinstance(name, str) or hasattr(mod, name):
+                return None
+            setattr(mod, name, m)
+            placed.append((mod, name))
+        b = cloudpickle.dumps(ann)
+    finally:
+        for mod, name in placed:
+            delattr(mod, name)
+    return None if b"_make_skeleton_class" in b else b
+
+
+CP_ROUTES = ("cloudpickle", "cloudpickle-ref")
+
+
+def _cp_dumps(route, ann):
+    import cloudpickle
+
+    return cloudpickle.dumps(ann) if route == "cloudpickle" else _cp_dumps_by_ref(ann)
 
 
 # ---- child modes --------------------------------------------------------------
@@ -440,11 +613,11 @@ def _child_blame(task):
     v0 = enc(vector(ann))
     route = task["route"]
     out = dict(v0=v0)
-    if route.startswith("pickle") or route == "cloudpickle":
-        if route == "cloudpickle":
-            import cloudpickle
-
-            ok, b = _safe(cloudpickle.dumps, ann)
+    if route.startswith("pickle") or route in CP_ROUTES:
+        if route in CP_ROUTES:
+            ok, b = _safe(_cp_dumps, route, ann)
+            if ok and b is None:
+                return dict(v0=v0, na=True)
         else:
             ok, b = _safe(pickle.dumps, ann, protocol=int(route[6:]))
         out["dump"] = None if ok else b
@@ -473,8 +646,6 @@ def _child_cp_same(task):
     two phases as in `_child_same`."""
     import pickle
 
-    import cloudpickle
-
     can = _start(task)
     items, todo = [], []
     for idx, spec in task["specs"]:
@@ -483,12 +654,20 @@ def _child_cp_same(task):
         items.append(it)
         todo.append((it, ann))
     for it, ann in todo:
-        r = it["routes"]["cloudpickle"] = {}
-        ok, b = _safe(cloudpickle.dumps, ann)
-        r["dump"] = None if ok else b
+        blobs = {}
+        for route in CP_ROUTES:
+            r = it["routes"][route] = {}
+            ok, b = _safe(_cp_dumps, route, ann)
+            if ok and b is None:
+                r["na"] = True  # by reference not achievable for this name
+                continue
+            r["dump"] = None if ok else b
+            if ok:
+                blobs[route] = b
+                it["blobs"][route] = _b64(b)
         it["orig_after_dumps"] = enc(vector(ann))
-        if ok:
-            it["blobs"]["cloudpickle"] = _b64(b)
+        for route, b in blobs.items():
+            r = it["routes"][route]
             ok, rec = _safe(pickle.loads, b)
             if ok:
                 r["identical"] = rec is ann
@@ -497,8 +676,9 @@ def _child_cp_same(task):
             else:
                 r["load"] = rec
         it["orig_after_loads"] = enc(vector(ann))
-        if r.get("identical"):
-            r["copy"] = it["orig_after_loads"]  # the copy IS the original object
+        for r in it["routes"].values():
+            if r.get("identical"):
+                r["copy"] = it["orig_after_loads"]  # the copy IS the original object
         it["mini_ok"] = can.mini_ok()
     # dumping / loading LATER annotations must not change what an EARLIER original accepts
     for it, ann in todo:
@@ -559,15 +739,19 @@ def _child_main():
     task = json.loads(sys.stdin.read())
     try:
         out = _MODES[task["mode"]](task)
+        if task.get("orders"):
+            fx = _rt()["fx"]
+            out["orders"] = {n: [repr(d) for d in getattr(fx, n).dtypes] for n in HASH_CATS}
+            out["hashseed"] = os.environ.get("PYTHONHASHSEED")
     except HarnessError as e:
         out = dict(harness_error=str(e))
     sys.stdout.write("\n" + _MARK + json.dumps(out) + "\n")
     sys.stdout.flush()
 
 
-def run_child(task: dict) -> dict:
+def run_child(task: dict, hashseed: int = DUMP_SEED) -> dict:
     """Run one task in a FRESH interpreter whose sys.path starts with the repo
-    under test followed by the verif directory."""
+    under test followed by the verif directory, under a PINNED string-hash seed."""
     boot = (
         "import sys; sys.path[:0]=[%r, %r]; from vf.checks import c20; c20._child_main()"
         % (common.REPO, common.VERIF_DIR)
@@ -575,6 +759,7 @@ def run_child(task: dict) -> dict:
     env = dict(os.environ)
     env["VERIF_REPO"] = common.REPO
     env["PYTHONDONTWRITEBYTECODE"] = "1"
+    env["PYTHONHASHSEED"] = str(int(hashseed))
     env.pop("PYTHONPATH", None)
     p = subprocess.run(
         [sys.executable, "-c", boot], input=json.dumps(task), capture_output=True, text=True, env=env,
@@ -604,7 +789,7 @@ def _static_dtypes():
         import jaxtyping
         from vf.fixtures import c20_types as fx
 
-        for n in CATS:
+        for n in CATS + HASH_CATS:
             if n == "Shaped":
                 _STATIC[n] = "ANY"
             else:
@@ -629,8 +814,8 @@ def _effective(spec):
 
 def classify(spec) -> str:
     """Stable, route-independent class of an annotation:
-    '+'-join of the features {nested-narrowing | shaped, anon-axis, ellipsis}
-    or, when it has none of them, 'plain-<array type kind>'."""
+    '+'-join of the features {nested-narrowing | shaped, anon-axis, ellipsis,
+    treepath, unordered-category} or, when it has none of them, 'plain-<array type kind>'."""
     spec = _tup(spec)
     feats = []
     try:
@@ -646,6 +831,10 @@ def classify(spec) -> str:
         feats.append("anon-axis")
     if "..." in toks:
         feats.append("ellipsis")
+    if any("?" in t for t in toks):
+        feats.append("treepath")
+    if any(c in HASH_CATS for c in all_cats(spec)):
+        feats.append("unordered-category")
     if feats:
         return "+".join(feats)
     return "plain-" + ("nested" if depth(spec) else {"nd": "ndarray", "duck": "duck", "any": "anytype", "union": "union"}[spec[1]])
@@ -678,16 +867,19 @@ def _diff_text(ref: list, got: list, labels: list) -> str:
 # --------------------------------------------------------------------- pool job
 
 
-def _mk_violation(spec, route, proc, side, sym, text, batch=None):
+def _mk_violation(spec, route, proc, side, sym, text, batch=None, seeds=None):
     rname = "pickle" if (route.startswith("pickle") and route != "pickle-or-copy") else route
     key = f"C20:{rname}:{proc}:{classify(spec)}:{side}"
     proto = f" protocol {route[6:]}" if rname == "pickle" else ""
     where = "same process" if proc == "same" else "loaded in a fresh interpreter"
+    if proc != "same" and seeds:
+        where += f" (PYTHONHASHSEED {seeds[0]} where dumped, {seeds[1]} where loaded)"
     return dict(
         key=key,
         what=f"{rname}{proto}, {where}: {side} of {render(spec)} [{sym}]: {text}",
-        replay=dict(spec=list(_listify(spec)), route=route, proc=proc, side=side, **({"batch": batch} if batch else {})),
-        size=spec_size(spec) + (10**6 if batch else 0),
+        replay=dict(spec=list(_listify(spec)), route=route, proc=proc, side=side, seeds=list(seeds or (DUMP_SEED, LOAD_SEEDS[0])),
+                    **({"batch": batch} if batch else {})),  # fmt: skip
+        size=spec_size(spec) + (10**6 if batch else 0) + (seeds[1] if seeds else 0),
     )
 
 
@@ -697,27 +889,40 @@ def _listify(spec):
 
 
 def _job(job):
-    """Pool worker: orchestrates the four children of one batch and compares."""
-    labels = probe_labels()
+    """Pool worker: orchestrates the children of one batch (same-process pickle/copy;
+    one loader per load seed; same-process cloudpickle; one cloudpickle loader per load
+    seed) and compares."""
     fp = job["fingerprint"]
+    dump_seed, load_seeds = job.get("dump_seed", DUMP_SEED), job.get("load_seeds", LOAD_SEEDS)
+    want_orders = bool(job.get("orders"))
     specs = [(i, _listify(s)) for i, s in job["specs"]]
     by_idx = {i: _tup(s) for i, s in job["specs"]}
     viols, stats = [], dict(
         annotations=0, unconstructible=0, evaluations=0, nontrivial_cases=0, nontrivial_annotations=0,
-        identical_copies=0, probes=0, children=0, blame_children=0, unattributed_original_changes=0,
+        identical_copies=0, probes=0, tree_probes=0, children=0, blame_children=0, unattributed_original_changes=0,
+        tree_plan_0=0, tree_plan_1=0, tree_plan_2=0, tree_nontrivial_annotations=0, treepath_annotations=0,
+        treepath_annotations_accepting_unequal_leaves=0, by_reference_not_applicable=0, by_reference_applicable=0,
     )  # fmt: skip
     vectors_seen = set()
     samples = []
     per_class = {}
+    orders = {}
 
-    def compare(spec, route, proc, side, ref, got_s, nontrivial):
+    def note_orders(out, seed):
+        if want_orders:
+            if str(out.get("hashseed")) != str(seed):
+                raise HarnessError(f"child ran under PYTHONHASHSEED={out.get('hashseed')!r}, wanted {seed}")
+            orders[str(seed)] = out["orders"]
+
+    def compare(spec, route, proc, side, ref, got_s, nontrivial, seeds=None):
         stats["evaluations"] += 1
         stats["probes"] += len(ref)
+        stats["tree_probes"] += len(ref) - N_PLAIN
         if nontrivial:
             stats["nontrivial_cases"] += 1
         got = dec(got_s)
         if got != ref:
-            viols.append(_mk_violation(spec, route, proc, side, symptom(ref, got), _diff_text(ref, got, labels)))
+            viols.append(_mk_violation(spec, route, proc, side, symptom(ref, got), _diff_text(ref, got, labels_for(ref)), seeds=seeds))
             return False
         return True
 
@@ -731,14 +936,15 @@ def _job(job):
                 break
         return out
 
-    def fail(spec, route, proc, side, sym, text, nontrivial):
+    def fail(spec, route, proc, side, sym, text, nontrivial, seeds=None):
         stats["evaluations"] += 1
         if nontrivial:
             stats["nontrivial_cases"] += 1
-        viols.append(_mk_violation(spec, route, proc, side, sym, text))
+        viols.append(_mk_violation(spec, route, proc, side, sym, text, seeds=seeds))
 
     # ---- child S: same-process pickle / copy
-    s_out = run_child(dict(mode="same", specs=specs, fingerprint=fp))
+    s_out = run_child(dict(mode="same", specs=specs, fingerprint=fp, orders=want_orders), dump_seed)
+    note_orders(s_out, dump_seed)
     stats["children"] += 1
     good = []  # constructible
     v0 = {}
@@ -750,12 +956,19 @@ def _job(job):
             continue
         stats["annotations"] += 1
         ref = dec(it["v0"])
-        if len(ref) != len(labels):
-            raise HarnessError("vector length mismatch")
+        labels = labels_for(ref)  # also checks the length against the vector's own tree plan
         v0[it["i"]] = ref
         nt = ("T" in ref) and any(x != "T" for x in ref)
         if nt:
             stats["nontrivial_annotations"] += 1
+        tp = tree_part(ref)
+        stats[f"tree_plan_{len(tp) // len(TREE_PAIRS)}"] += 1
+        if "T" in tp and any(x != "T" for x in tp):
+            stats["tree_nontrivial_annotations"] += 1
+        if any("?" in t for t in all_tokens(spec)):
+            stats["treepath_annotations"] += 1
+            if any(tp[k + j] == "T" for k in range(0, len(tp), len(TREE_PAIRS)) for j in TREE_UNEQUAL):
+                stats["treepath_annotations_accepting_unequal_leaves"] += 1
         vectors_seen.add(hashlib.sha1(it["v0"].encode()).hexdigest()[:12])
         cl = classify(spec)
         per_class[cl] = per_class.get(cl, 0) + 1
@@ -763,6 +976,7 @@ def _job(job):
         orig_bad = any(dec(it[ph]) != ref for ph in ("orig_after_dumps", "orig_after_loads")) or not it["mini_ok"]
         stats["evaluations"] += 2
         stats["probes"] += 2 * len(ref)
+        stats["tree_probes"] += 2 * len(tp)
         if not orig_bad or blamed >= BLAME_CAP_PER_BATCH:
             for route, r in it["routes"].items():
                 if r.get("dump"):
@@ -799,7 +1013,7 @@ def _job(job):
             # re-run alone on a fresh original in a fresh interpreter and judged there
             blamed += 1
             for route in [f"pickle{p}" for p in PICKLE_PROTOCOLS] + ["copy", "deepcopy"]:
-                b = run_child(dict(mode="blame", spec=_listify(spec), route=route, fingerprint=fp))
+                b = run_child(dict(mode="blame", spec=_listify(spec), route=route, fingerprint=fp), dump_seed)
                 stats["blame_children"] += 1
                 if b["v0"] != it["v0"]:
                     raise HarnessError(f"non-deterministic vector for {render(spec)}")
@@ -817,54 +1031,64 @@ def _job(job):
                 viols.append(_mk_violation(spec, "pickle-or-copy", "same", "bystander", "differs", "an annotation that was not serialised changed its acceptance after this case", batch=prefix(it["i"])))
         if len(samples) < 2 and nt and depth(spec) == job["sample_depth"]:
             samples.append(dict(annotation=render(spec), cls=cl, accepts=ref.count("T"), rejects=ref.count("F"),
-                                raises=len(ref) - ref.count("T") - ref.count("F"),
+                                raises=len(ref) - ref.count("T") - ref.count("F"), as_pytree_leaf="".join(x if len(x) == 1 else "E" for x in tp),
                                 routes_equal={k: (r.get("copy") == it["v0"]) for k, r in it["routes"].items()}))  # fmt: skip
+    last = good[-1][1] if good else by_idx[specs[0][0]]
     if s_out["fingerprint_end"] != fp:
-        viols.append(_mk_violation(good[-1][1] if good else by_idx[specs[0][0]], "pickle-or-copy", "same", "bystander", "differs",
+        viols.append(_mk_violation(last, "pickle-or-copy", "same", "bystander", "differs",
                                    "canary annotations changed their acceptance during this batch of pickle/copy round trips", batch=prefix(None)))  # fmt: skip
 
-    # ---- child L: fresh interpreter loads the pickle blobs + cross-process copy routes
+    # ---- children L: fresh interpreters (one per load seed) load the pickle blobs + cross-process copy routes
     blobs = {it["i"]: it.get("blobs", {}) for it in s_out["items"] if "unconstructible" not in it}
-    l_out = run_child(dict(mode="load", fingerprint=fp, items=[
-        dict(i=i, spec=_listify(spec), blobs=blobs[i], copy_routes=True) for i, spec, _ in good]))  # fmt: skip
-    stats["children"] += 1
     nts = {i: nt for i, _, nt in good}
-    for it in l_out["items"]:
-        spec, ref = by_idx[it["i"]], v0[it["i"]]
-        for route, r in it["routes"].items():
-            if r.get("load"):
-                fail(spec, route, "xproc", "copy", "load-error", f"could not be loaded in a fresh interpreter: {r['load']}", nts[it["i"]])
-            else:
-                compare(spec, route, "xproc", "copy", ref, r["copy"], nts[it["i"]])
-                if "copy_later" in r:
-                    compare(spec, route, "xproc", "copy-after-later-loads", ref, r["copy_later"], nts[it["i"]])
-                if "copy_gen2" in r:
-                    compare(spec, route, "xproc", "copy-second-generation", ref, r["copy_gen2"], nts[it["i"]])
-                if "gen2_error" in r:
-                    fail(spec, route, "xproc", "copy-second-generation", "load-error", f"the loaded copy could not be pickled and loaded again: {r['gen2_error']}", nts[it["i"]])
-        if not it["mini_ok"]:
-            viols.append(_mk_violation(spec, "pickle-or-copy", "xproc", "bystander", "differs", "an unrelated annotation changed its acceptance after loading this one", batch=prefix(it["i"])))
-    if l_out["fingerprint_end"] != fp:
-        viols.append(_mk_violation(good[-1][1] if good else by_idx[specs[0][0]], "pickle-or-copy", "xproc", "bystander", "differs",
-                                   "canary annotations changed their acceptance while loading this batch", batch=prefix(None)))  # fmt: skip
+    for ls in load_seeds:
+        sd = (dump_seed, ls)
+        l_out = run_child(dict(mode="load", fingerprint=fp, orders=want_orders, items=[
+            dict(i=i, spec=_listify(spec), blobs=blobs[i], copy_routes=True) for i, spec, _ in good]), ls)  # fmt: skip
+        note_orders(l_out, ls)
+        stats["children"] += 1
+        for it in l_out["items"]:
+            spec, ref = by_idx[it["i"]], v0[it["i"]]
+            for route, r in it["routes"].items():
+                if r.get("load"):
+                    fail(spec, route, "xproc", "copy", "load-error", f"could not be loaded in a fresh interpreter: {r['load']}", nts[it["i"]], sd)
+                else:
+                    compare(spec, route, "xproc", "copy", ref, r["copy"], nts[it["i"]], sd)
+                    if "copy_later" in r:
+                        compare(spec, route, "xproc", "copy-after-later-loads", ref, r["copy_later"], nts[it["i"]], sd)
+                    if "copy_gen2" in r:
+                        compare(spec, route, "xproc", "copy-second-generation", ref, r["copy_gen2"], nts[it["i"]], sd)
+                    if "gen2_error" in r:
+                        fail(spec, route, "xproc", "copy-second-generation", "load-error", f"the loaded copy could not be pickled and loaded again: {r['gen2_error']}", nts[it["i"]], sd)
+            if not it["mini_ok"]:
+                viols.append(_mk_violation(spec, "pickle-or-copy", "xproc", "bystander", "differs", "an unrelated annotation changed its acceptance after loading this one", batch=prefix(it["i"]), seeds=sd))
+        if l_out["fingerprint_end"] != fp:
+            viols.append(_mk_violation(last, "pickle-or-copy", "xproc", "bystander", "differs",
+                                       "canary annotations changed their acceptance while loading this batch", batch=prefix(None), seeds=sd))  # fmt: skip
 
-    # ---- child C: same-process cloudpickle (own interpreter)
-    c_out = run_child(dict(mode="cp_same", fingerprint=fp, specs=[(i, _listify(spec)) for i, spec, _ in good]))
+    # ---- child C: same-process cloudpickle, by value and by reference (own interpreter)
+    c_out = run_child(dict(mode="cp_same", fingerprint=fp, specs=[(i, _listify(spec)) for i, spec, _ in good]), dump_seed)
     stats["children"] += 1
     cblobs = []
     for it in c_out["items"]:
         spec, ref, nt = by_idx[it["i"]], v0[it["i"]], nts[it["i"]]
         if dec(it["v0"]) != ref:
             raise HarnessError(f"non-deterministic vector for {render(spec)} between two fresh interpreters")
-        r = it["routes"]["cloudpickle"]
-        if r.get("dump"):
-            fail(spec, "cloudpickle", "same", "copy", "dump-error", f"could not be serialised: {r['dump']}", nt)
-        elif r.get("load"):
-            fail(spec, "cloudpickle", "same", "copy", "load-error", f"could not be loaded: {r['load']}", nt)
-        else:
-            if r.get("identical"):
-                stats["identical_copies"] += 1
-            compare(spec, "cloudpickle", "same", "copy", ref, r["copy"], nt)
+        for route in CP_ROUTES:
+            r = it["routes"][route]
+            if r.get("na"):
+                stats["by_reference_not_applicable"] += 1
+                continue
+            if route == "cloudpickle-ref":
+                stats["by_reference_applicable"] += 1
+            if r.get("dump"):
+                fail(spec, route, "same", "copy", "dump-error", f"could not be serialised: {r['dump']}", nt)
+            elif r.get("load"):
+                fail(spec, route, "same", "copy", "load-error", f"could not be loaded: {r['load']}", nt)
+            else:
+                if r.get("identical"):
+                    stats["identical_copies"] += 1
+                compare(spec, route, "same", "copy", ref, r["copy"], nt)
         # original after dumps alone == what a process that only SENDS the annotation sees
         compare(spec, "cloudpickle", "xproc", "original", ref, it["orig_after_dumps"], nt)
         compare(spec, "cloudpickle", "same", "original", ref, it["orig_after_loads"], nt)
@@ -872,27 +1096,29 @@ def _job(job):
             compare(spec, "cloudpickle", "same", "original-after-later-cases", ref, it["orig_after_later_cases"], nt)
         if not it["mini_ok"]:
             viols.append(_mk_violation(spec, "cloudpickle", "same", "bystander", "differs", "an annotation that was not serialised changed its acceptance after this case", batch=prefix(it["i"])))
-        if "cloudpickle" in it["blobs"]:
+        if it["blobs"]:
             cblobs.append(dict(i=it["i"], blobs=it["blobs"]))
     if c_out["fingerprint_end"] != fp:
-        viols.append(_mk_violation(good[-1][1] if good else by_idx[specs[0][0]], "cloudpickle", "same", "bystander", "differs",
+        viols.append(_mk_violation(last, "cloudpickle", "same", "bystander", "differs",
                                    "canary annotations changed their acceptance during this batch of cloudpickle round trips", batch=prefix(None)))  # fmt: skip
 
-    # ---- child D: fresh interpreter loads the cloudpickle blobs
-    d_out = run_child(dict(mode="load", fingerprint=fp, items=cblobs))
-    stats["children"] += 1
-    for it in d_out["items"]:
-        spec, ref, nt = by_idx[it["i"]], v0[it["i"]], nts[it["i"]]
-        r = it["routes"]["cloudpickle"]
-        if r.get("load"):
-            fail(spec, "cloudpickle", "xproc", "copy", "load-error", f"could not be loaded in a fresh interpreter: {r['load']}", nt)
-        else:
-            compare(spec, "cloudpickle", "xproc", "copy", ref, r["copy"], nt)
-        if not it["mini_ok"]:
-            viols.append(_mk_violation(spec, "cloudpickle", "xproc", "bystander", "differs", "an unrelated annotation changed its acceptance after loading this one", batch=prefix(it["i"])))
-    if d_out["fingerprint_end"] != fp:
-        viols.append(_mk_violation(good[-1][1] if good else by_idx[specs[0][0]], "cloudpickle", "xproc", "bystander", "differs",
-                                   "canary annotations changed their acceptance while loading this batch of cloudpickle blobs", batch=prefix(None)))  # fmt: skip
+    # ---- children D: fresh interpreters (one per load seed) load the cloudpickle blobs
+    for ls in load_seeds:
+        sd = (dump_seed, ls)
+        d_out = run_child(dict(mode="load", fingerprint=fp, items=cblobs), ls)
+        stats["children"] += 1
+        for it in d_out["items"]:
+            spec, ref, nt = by_idx[it["i"]], v0[it["i"]], nts[it["i"]]
+            for route, r in it["routes"].items():
+                if r.get("load"):
+                    fail(spec, route, "xproc", "copy", "load-error", f"could not be loaded in a fresh interpreter: {r['load']}", nt, sd)
+                else:
+                    compare(spec, route, "xproc", "copy", ref, r["copy"], nt, sd)
+            if not it["mini_ok"]:
+                viols.append(_mk_violation(spec, "cloudpickle", "xproc", "bystander", "differs", "an unrelated annotation changed its acceptance after loading this one", batch=prefix(it["i"]), seeds=sd))
+        if d_out["fingerprint_end"] != fp:
+            viols.append(_mk_violation(last, "cloudpickle", "xproc", "bystander", "differs",
+                                       "canary annotations changed their acceptance while loading this batch of cloudpickle blobs", batch=prefix(None), seeds=sd))  # fmt: skip
 
     # keep the three smallest instances per key, count all
     counts = {}
@@ -905,7 +1131,7 @@ def _job(job):
             n[v["key"]] = n.get(v["key"], 0) + 1
             kept.append(v)
     return dict(stats=stats, viols=kept, counts=counts, vectors=sorted(vectors_seen), samples=samples, per_class=per_class,
-                first=min(i for i, _ in job["specs"]))  # fmt: skip
+                first=(job.get("family", 0), min(i for i, _ in job["specs"])), orders=orders)  # fmt: skip
 
 
 # ------------------------------------------------------------------------- run
@@ -913,20 +1139,42 @@ def _job(job):
 
 def run(ctx):
     specs = enumerate_specs(ctx.tier)
-    if len(set(specs)) != len(specs):
+    hspecs = enumerate_hash_specs(ctx.tier)
+    if len(set(specs + hspecs)) != len(specs) + len(hspecs):
         raise HarnessError("duplicate specs in the alphabet")
-    fp_out = run_child(dict(mode="fingerprint"))
+    fp_out = run_child(dict(mode="fingerprint"), DUMP_SEED)
     fp = fp_out["fingerprint"]
-    if run_child(dict(mode="fingerprint"))["fingerprint"] != fp:
-        raise HarnessError("pristine fingerprint differs between two fresh interpreters")
+    if run_child(dict(mode="fingerprint"), LOAD_SEEDS[0])["fingerprint"] != fp:
+        raise HarnessError("pristine fingerprint differs between two fresh interpreters (PYTHONHASHSEED 1 and 2)")
     n_batches = common.NCPU * (2 if ctx.quick else 6)
+    n_hbatches = 3 if ctx.quick else common.NCPU
     jobs = []
+    # the batches of the second family start first: they run 10 children each
+    for idx in common.shards(len(hspecs), n_hbatches, ctx.seed):
+        jobs.append(dict(specs=[(i, hspecs[i]) for i in idx], fingerprint=fp, sample_depth=idx[0] % 3, family=1,
+                         dump_seed=DUMP_SEED, load_seeds=HASH_LOAD_SEEDS, orders=True))  # fmt: skip
     for k, idx in enumerate(common.shards(len(specs), n_batches, ctx.seed)):
         # idx[0] identifies the shard independently of the seed's rotation
-        jobs.append(dict(specs=[(i, specs[i]) for i in idx], fingerprint=fp, sample_depth=idx[0] % 3))
+        jobs.append(dict(specs=[(i, specs[i]) for i in idx], fingerprint=fp, sample_depth=idx[0] % 3, family=0))
     outs = common.pmap(_job, jobs)
     stats = common.merge_counts(o["stats"] for o in outs)
-    outs = sorted(outs, key=lambda o: o["first"])  # merge order independent of the seed
+    hstats = common.merge_counts(o["stats"] for o in outs if o["first"][0] == 1)
+    outs = sorted(outs, key=lambda o: tuple(o["first"]))  # merge order independent of the seed
+    # the cross-seed dimension is only meaningful if the seeds really reorder the categories
+    orders = {}
+    for o in outs:
+        for sd, tab in o["orders"].items():
+            for cat, order in tab.items():
+                if orders.setdefault(cat, {}).setdefault(sd, order) != order:
+                    raise HarnessError(f"{cat}.dtypes has two different orders under PYTHONHASHSEED={sd}")
+    for cat in HASH_CATS:
+        per_seed = orders.get(cat, {})
+        if sorted(per_seed) != sorted(str(x) for x in set(HASH_LOAD_SEEDS) | {DUMP_SEED}):
+            raise HarnessError(f"no dtypes order recorded for {cat} under some seed: {sorted(per_seed)}")
+        if not any(per_seed[str(sd)] != per_seed[str(DUMP_SEED)] for sd in HASH_LOAD_SEEDS):
+            raise HarnessError(f"{cat}.dtypes has the same order under every seed {HASH_LOAD_SEEDS}: the family is vacuous")
+        if sorted(per_seed[str(DUMP_SEED)]) != sorted(per_seed[str(HASH_LOAD_SEEDS[-1])]):
+            raise HarnessError(f"{cat}.dtypes differs as a SET between interpreters")
     counts = dict(sorted(common.merge_counts(o["counts"] for o in outs).items()))
     per_class = dict(sorted(common.merge_counts(o["per_class"] for o in outs).items()))
     vectors = set()
@@ -940,7 +1188,8 @@ def run(ctx):
             viols.append(Violation(key=v["key"], what=v["what"], replay=v["replay"]))
     samples = sorted((s for o in outs for s in o["samples"]), key=lambda s: s["annotation"])
     samples = samples[:: max(1, len(samples) // 5)][:6]
-    n_routes = len(PICKLE_PROTOCOLS) + 3
+    n_routes = len(PICKLE_PROTOCOLS) + 4
+    ann_tp = stats["treepath_annotations"]
     cov = dict(
         evaluations=stats["evaluations"],
         distinct_nontrivial=stats["nontrivial_cases"],
@@ -949,25 +1198,43 @@ def run(ctx):
         "array class is told apart); specs are pairwise distinct by construction",
         samples=samples,
         exhaustive=True,
-        annotations_enumerated=len(specs),
+        annotations_enumerated=len(specs) + len(hspecs),
+        annotations_enumerated_first_family=len(specs),
+        annotations_enumerated_unordered_category_family=len(hspecs),
+        annotations_constructible_unordered_category_family=hstats["annotations"],
+        evaluations_unordered_category_family=hstats["evaluations"],
+        hash_seeds=dict(dump=DUMP_SEED, load_first_family=LOAD_SEEDS, load_unordered_category_family=HASH_LOAD_SEEDS),
+        distinct_dtypes_orders_per_unordered_category={c: len({tuple(o) for o in orders[c].values()}) for c in HASH_CATS},
+        dtypes_order_by_seed={c: {sd: orders[c][sd] for sd in sorted(orders[c])} for c in HASH_CATS},
         annotations_constructible=stats["annotations"],
         annotations_refused_by_jaxtyping=stats["unconstructible"],
         nontrivial_annotations=stats["nontrivial_annotations"],
         distinct_acceptance_vectors=len(vectors),
-        routes=[f"pickle{p}" for p in PICKLE_PROTOCOLS] + ["cloudpickle", "copy", "deepcopy"],
+        routes=[f"pickle{p}" for p in PICKLE_PROTOCOLS] + ["cloudpickle", "cloudpickle-ref", "copy", "deepcopy"],
         routes_x_processes=n_routes * 2,
-        probes_per_vector=fp_out["n_probes"],
+        probes_per_vector=f"{N_PLAIN} plain + {len(TREE_PAIRS)} two-leaf trees per array class the annotation does not reject outright (0..2 classes)",
         isinstance_probes_compared=stats["probes"],
+        pytree_leaf_probes_compared=stats["tree_probes"],
+        annotations_by_tree_classes={k: stats[f"tree_plan_{k}"] for k in (0, 1, 2)},
+        annotations_with_nontrivial_tree_part=stats["tree_nontrivial_annotations"],
+        treepath_annotations=ann_tp,
+        treepath_annotations_accepting_unequal_leaves=stats["treepath_annotations_accepting_unequal_leaves"],
+        cloudpickle_by_reference=dict(applicable=stats["by_reference_applicable"], not_applicable_name_not_resolvable=stats["by_reference_not_applicable"]),
         copies_identical_to_original=stats["identical_copies"],
         annotations_per_class=per_class,
         fresh_interpreters=stats["children"] + stats["blame_children"] + 2,
         unattributed_original_changes=stats["unattributed_original_changes"],
         violation_instances_by_key=counts,
-        bounds=f"{len(CATS)} categories x {{ndarray,Duck20,Any,Union}} x {len(DIMS)} dim strings; nested 1 level: 16 outer x "
-        f"{len(CATS) if ctx.thorough else len(INNER_CATS_QUICK)} inner categories x 8 x 3 dim strings over "
-        f"{'4 base types' if ctx.thorough else 'ndarray'}; nested 2 levels: {len(CHAIN_CATS_THOROUGH if ctx.thorough else CHAIN_CATS_QUICK)}^3 "
-        f"category chains; probes: 2 array classes x 9 dtypes x {len(SHAPES)} shapes x 3 contexts",
-    )
+        bounds=f"{len(CATS)} categories x {{ndarray,Duck20,Any,Union}} x {len(DIMS)} dim strings (incl. '?a', '*?v 3'); nested 1 level: 16 outer x "
+        + (f"{len(CATS)} inner categories x {len(DIMS)} x {len(INNER_DIMS)} dim strings over 4 base types" if ctx.thorough else
+           f"{len(INNER_CATS_QUICK)} inner categories x {len(DIMS_NO_TP)} x {len(INNER_DIMS_NO_TP)} dim strings over ndarray + every (outer, inner) dims pair with a '?' axis "
+           f"({len(DIMS) * len(INNER_DIMS) - len(DIMS_NO_TP) * len(INNER_DIMS_NO_TP)}) over {len(CHAIN_CATS_QUICK)}x{len(CHAIN_CATS_QUICK)} categories")
+        + f"; nested 2 levels: {len(CHAIN_CATS_THOROUGH if ctx.thorough else CHAIN_CATS_QUICK)}^3 category chains x "
+        + (f"{len(DIMS)} x 2 x {len(INNER_DIMS)} dims" if ctx.thorough else f"({len(OUTER_DIMS_CHAIN_QUICK)} x {len(INNER_DIMS_NO_TP)} + {len(CHAIN_TP_QUICK)} '?' pairs) dims")
+        + f"; unordered-category family: {{SetMix,SetRe}} flat, nested 1 level (both directions, {len(CATS) if ctx.thorough else len(HASH_PARTNERS_QUICK)} partner categories + each other), "
+        f"2-level chains with {'>= 1' if ctx.thorough else 'exactly 1'} of them among {len(HASH_CHAIN_THOROUGH if ctx.thorough else HASH_CHAIN_QUICK)} others, dumped under PYTHONHASHSEED={DUMP_SEED}, loaded under {HASH_LOAD_SEEDS}"
+        f"; probes: 2 array classes x 9 dtypes x {len(SHAPES)} shapes x 3 contexts + two-leaf trees over {len(TREE_PAIRS)} shape pairs as PyTree[annotation,'T'] leaves",
+    )  # fmt: skip
     return Result(
         level="exploration",
         coverage=cov,
@@ -976,6 +1243,10 @@ def run(ctx):
             "acceptance is observed through isinstance on the member(s) of the annotation (a Union is walked like a type checker does)",
             "exception TYPE is the outcome; messages are not compared",
             "copy routes 'in another process' = the annotation is rebuilt from its spec in a fresh interpreter and copied there",
+            "the trees an annotation is probed with are chosen from the plain part of the SAME vector (first dtype per array class that is not rejected outright); "
+            "two vectors with equal plain parts therefore have comparable tree parts, and unequal plain parts are a violation already",
+            "cloudpickle 'by reference' = the annotation class is bound as <module>.<qualname> during the dump (names containing '.' cannot be resolved by cloudpickle and are counted as not applicable)",
+            "every interpreter runs under a pinned PYTHONHASHSEED, so the run is reproducible",
         ],
         notes=[f"pristine fingerprint {fp}"],
     )
@@ -988,20 +1259,20 @@ def replay(rep):
     """Re-execute one recorded case in fresh interpreters, without the explorer."""
     spec = _tup(rep["spec"])
     route, proc, side = rep["route"], rep["proc"], rep["side"]
-    labels = probe_labels()
-    fp = run_child(dict(mode="fingerprint"))["fingerprint"]
-    out = dict(annotation=render(spec), route=route, proc=proc, side=side, violates=False, details=[])
+    dump_seed, load_seed = rep.get("seeds") or (DUMP_SEED, LOAD_SEEDS[0])
+    fp = run_child(dict(mode="fingerprint"), dump_seed)["fingerprint"]
+    out = dict(annotation=render(spec), route=route, proc=proc, side=side, seeds=[dump_seed, load_seed], violates=False, details=[])
     if side == "bystander" or route == "pickle-or-copy":
         # batch-level observations: re-run the recorded (prefix of the) batch in one fresh interpreter
         batch = rep.get("batch") or [_listify(spec)]
-        mode = "cp_same" if route == "cloudpickle" else "same"
+        mode = "cp_same" if route in CP_ROUTES else "same"
         if mode == "cp_same":  # that child expects constructible specs only
-            ok = run_child(dict(mode="same", specs=list(enumerate(batch)), fingerprint=fp))
+            ok = run_child(dict(mode="same", specs=list(enumerate(batch)), fingerprint=fp), dump_seed)
             batch = [batch[it["i"]] for it in ok["items"] if "v0" in it]
-        s_out = run_child(dict(mode=mode, specs=list(enumerate(batch)), fingerprint=fp))
+        s_out = run_child(dict(mode=mode, specs=list(enumerate(batch)), fingerprint=fp), dump_seed)
         items = [it for it in s_out["items"] if "v0" in it]
         if proc == "xproc" and side == "bystander":
-            l_out = run_child(dict(mode="load", fingerprint=fp, items=[dict(i=it["i"], blobs=it["blobs"]) for it in items]))
+            l_out = run_child(dict(mode="load", fingerprint=fp, items=[dict(i=it["i"], blobs=it["blobs"]) for it in items]), load_seed)
             bad = l_out["fingerprint_end"] != fp or not all(i["mini_ok"] for i in l_out["items"])
         else:
             bad = s_out["fingerprint_end"] != fp or not all(it["mini_ok"] for it in items)
@@ -1010,13 +1281,15 @@ def replay(rep):
                     for ph in ("orig_after_dumps", "orig_after_loads"):
                         if it[ph] != it["v0"]:
                             bad = True
-                            out["details"].append(f"{ph}: {_diff_text(dec(it['v0']), dec(it[ph]), labels)}")
+                            out["details"].append(f"{ph}: {_diff_text(dec(it['v0']), dec(it[ph]), labels_for(dec(it['v0'])))}")
         out["violates"] = bool(bad)
         return out
-    b = run_child(dict(mode="blame", spec=_listify(spec), route=route, fingerprint=fp))
+    b = run_child(dict(mode="blame", spec=_listify(spec), route=route, fingerprint=fp), dump_seed)
     ref = dec(b["v0"])
     got = None
-    if b.get("dump"):
+    if b.get("na"):
+        out["details"].append("cloudpickle did not treat the annotation as importable by name: route not applicable")
+    elif b.get("dump"):
         out["violates"] = True
         out["details"].append(f"dump failed {b['dump']}")
     elif side == "original":
@@ -1029,17 +1302,23 @@ def replay(rep):
             got = dec(b["copy"])
     else:
         if route in ("copy", "deepcopy"):
-            l_out = run_child(dict(mode="load", fingerprint=fp, items=[dict(i=0, spec=_listify(spec), blobs={}, copy_routes=True)]))
+            l_out = run_child(dict(mode="load", fingerprint=fp, items=[dict(i=0, spec=_listify(spec), blobs={}, copy_routes=True)]), load_seed)
         else:
-            l_out = run_child(dict(mode="load", fingerprint=fp, items=[dict(i=0, blobs={route: b["blob"]})]))
+            l_out = run_child(dict(mode="load", fingerprint=fp, items=[dict(i=0, blobs={route: b["blob"]})]), load_seed)
         rr = l_out["items"][0]["routes"][route]
         if rr.get("load"):
             out["violates"] = True
             out["details"].append(f"load in a fresh interpreter failed {rr['load']}")
         else:
             got = dec(rr["copy"])
+            for k in ("copy_gen2", "copy_later"):
+                if got == ref and k in rr:
+                    got = dec(rr[k])
+            if "gen2_error" in rr:
+                out["violates"] = True
+                out["details"].append(f"second generation failed {rr['gen2_error']}")
     if got is not None and got != ref:
         out["violates"] = True
         out["symptom"] = symptom(ref, got)
-        out["details"].append(_diff_text(ref, got, labels))
+        out["details"].append(_diff_text(ref, got, labels_for(ref)))
     return out
